@@ -273,6 +273,16 @@ fn elem_val(ix: &Index, elem: &syn::Type, path: &str, n: usize) -> Val {
 }
 
 /// names and declared types of the variables a role's arm passes to its builder
+/// The function both entry wrappers funnel into for this kind of item: `(Option<TokenStream>, &Item.., &mut HelperAttributeKinds)
+/// -> Result<TokenStream>`.  It is the dispatching function itself on the reference tree; a refactoring may have split the
+/// dispatch (`match e.kind`) off into a helper, in which case the dispatching function is its callee.
+pub fn entry_core(ix: &Index, dispatch: &Rc<FnDef>, item_kind: &str) -> Rc<FnDef> {
+    let item_ty = if item_kind == "struct" { "ItemStruct" } else { "ItemEnum" };
+    let sig = |f: &FnDef| f.sig.to_token_stream().to_string().replace(' ', "");
+    let cands: Vec<Rc<FnDef>> = ix.fns.values().flatten().filter(|f| { let s = sig(f); f.self_ty.is_none() && s.contains("Option<TokenStream>") && s.contains(item_ty) && s.contains("HelperAttributeKinds") && s.ends_with("->Result<TokenStream>") }).cloned().collect();
+    if cands.len() == 1 { cands.into_iter().next().unwrap() } else { dispatch.clone() }
+}
+
 pub fn role_roots(ix: &Index, role: &Role) -> Vec<(String, syn::Type)> {
     struct AB<'a> { ix: &'a Index, binds: Vec<(String, syn::Type)> }
     impl<'ast, 'a> Visit<'ast> for AB<'a> {
